@@ -18,7 +18,7 @@ use crate::base::{
     kind::{ArcKind, Kind, KindCache, KindEnv},
     merge,
     metadata::{Metadata, MetadataEnv},
-    pos::{self, BytePos, Span, Spanned},
+    pos::{self, ByteOffset, BytePos, Span, Spanned},
     resolve,
     scoped_map::{self, ScopedMap},
     symbol::{Symbol, SymbolModule, SymbolRef, Symbols},
@@ -1180,7 +1180,15 @@ impl<'a, 'ast> Typecheck<'a, 'ast> {
                 body,
                 flat_map_id,
             }) => {
-                let do_span = expr.span.subspan(0.into(), 2.into());
+                // Point at the `do` keyword, or at the sequenced expression when there is no
+                // keyword (`seq` and implicit blocks); never outside of the expression itself
+                let do_span = match id {
+                    Some(_) => Span::new(
+                        expr.span.start(),
+                        (expr.span.start() + ByteOffset::from(2)).min(expr.span.end()),
+                    ),
+                    None => bound.span,
+                };
                 let flat_map_type = match flat_map_id
                     .as_mut()
                     .expect("flat_map inserted during renaming")
